@@ -228,6 +228,43 @@ def run(ctx):
     nrt += 1
   ctx.count("roundtrip_files", nrt)
 
+  # 4b. long files: hundreds / thousands of cues in ONE file (far beyond any block or buffer size), CR LF line ends, read
+  # without newline translation.  The file is the concatenation of small random files; what the reader returns for the whole
+  # file is cut into the runs of paragraphs that belong to each part (as many as the part gives when read alone) and every
+  # part is judged like a small file - a cue lost, split or shifted anywhere makes the parts after it fail.
+  for _ in range(3 if thorough else 1):
+    target = rng.choice([140000, 300000]) if thorough else 75000
+    parts = []
+    total = 0
+    eol = rng.choice(["\r\n", "\r\n", "\n"])
+    while total < target:
+      lines, opts = S.gen_case(rng, maxcues=3)
+      text = S.render_srt(lines, rng, eol, opts["syntax"], True)
+      if not text.endswith(eol + eol):
+        text += eol
+      alone, _fr, _d = S.observe(text, "raw")
+      if alone["raised"] or alone["none"]:
+        continue
+      parts.append((text, len(alone["ps"])))
+      total += len(text)
+    big = "".join(t for t, _ in parts)
+    whole, _fr, _d = S.observe(big, "raw")
+    ctx.count("long_file_characters", len(big))
+    ctx.count("long_file_parts", len(parts))
+    if whole["raised"] or whole["none"]:
+      recs.append({"id": len(recs) + 1, "lines": S.lex_srt(parts[0][0]), "obs": whole, "fr": []})
+      meta.append({"source": "long_file", "text": big[:2000] + "...", "opts": {"eol": eol, "io": "raw", "length": len(big)}})
+    else:
+      at = 0
+      for text, n in parts:
+        obs = {"raised": "", "none": 0, "ps": whole["ps"][at:at + n]}
+        at += n
+        recs.append({"id": len(recs) + 1, "lines": S.lex_srt(text), "obs": obs, "fr": []})
+        meta.append({"source": "long_file", "text": text, "opts": {"eol": eol, "io": "raw", "part_of_file_of_length": len(big), "offset_paragraphs": at - n}})
+      if at != len(whole["ps"]):
+        # paragraphs beyond the last part: attribute them to the last part so that TLC rejects it
+        recs[-1]["obs"]["ps"] = recs[-1]["obs"]["ps"] + whole["ps"][at:]
+
   # 5. TLC judges ------------------------------------------------------------------------------------------------
   ctx.evaluations = len(recs)
   fails, skips = validate(ctx, "Trace_SrtReader", CFG_TRACE, recs, "srt", nproc=4)
